@@ -134,109 +134,133 @@ Definition typed_events (cred : option bytes) (op : bytes) : list event * option
   | _ => ([ETypedAccess cred (snake op)], None)
   end.
 
-Definition call (r : request) : list event * outcome :=
+(* ---- stage 1: what prepare computes before the signature check ---- *)
+Record prepared := { p_path : s3path; p_vh : option bytes; p_qs : option (list (bytes * bytes)); p_hs : headers;
+                     p_mime : option (bool * option bytes); p_dl : option N; p_decoded : bytes }.
+
+Definition pre (r : request) : bytes + prepared :=
   let decoded := pct_decode (rq_raw_path r) in
-  if negb (utf8_valid decoded) then err (b "InvalidURI") else
+  if negb (utf8_valid decoded) then inl (b "InvalidURI") else
   let host := match hs_get_all (rq_headers r) (b "host") with h :: _ => Some h | [] => None end in
   match address (cf_host cfg) host decoded with
-  | AInvalidHost => err (b "InvalidRequest")
-  | APathErr InvalidPath => err (b "InvalidURI")
-  | APathErr InvalidBucketName => err (b "InvalidBucketName")
-  | APathErr KeyTooLong => err (b "KeyTooLongError")
+  | AInvalidHost => inl (b "InvalidRequest")
+  | APathErr InvalidPath => inl (b "InvalidURI")
+  | APathErr InvalidBucketName => inl (b "InvalidBucketName")
+  | APathErr KeyTooLong => inl (b "KeyTooLongError")
   | AOk path =>
-  let vh := match cf_host cfg, host with
-            | Hosts bases, Some h => if is_socket_addr_or_ip_addr h then None
-                                     else match resolve_host bases h with Some (_, vb) => vb | None => None end
-            | _, _ => None end in
-  let qs := option_map parse_qs (rq_raw_query r) in
-  let hs := ordered (rq_headers r) in
-  let mime := match hs_get_unique hs (b "content-type") with Some ct => Some (mime_boundary ct) | None => None end in
-  match mime with Some None => err (b "InvalidRequest") | _ =>
-  let dl := match hs_get_unique hs (b "x-amz-decoded-content-length") with Some v => Some (atoi_u64 v) | None => None end in
-  match dl with Some None => err (b "InvalidRequest") | _ =>
-  let dl := match dl with Some (Some n) => Some n | _ => None end in
-  let is_post_form := beq (rq_meth r) (b "POST") && match mime with Some (Some (true, _)) => true | _ => false end in
-  let r4 := {| q_meth := rq_meth r; q_path := decoded; q_qs := qs; q_hs := hs; q_h2_authority := rq_h2_authority r; q_body := full_body r |} in
-  let r2 := {| w_meth := rq_meth r; w_raw_path := rq_raw_path r; w_qs := qs; w_hs := hs; w_vh := vh |} in
-  (* signature check; for a POST form also the parsed multipart *)
-  let sig := match v2_check mac (cf_auth cfg) r2 now_ns with
-             | Some v => (Some v, None)
-             | None =>
-                 if is_post_form then
-                   match cf_auth cfg with None => (Some (Reject (b "NotImplemented")), None) | Some _ =>
-                   match mime with
-                   | Some (Some (_, Some boundary)) =>
-                       let frames := match rq_body r with BBytes d => [d] | BStream fr _ => fr end in
-                       let terr := match rq_body r with BStream _ t => t | _ => false end in
-                       match transform true boundary [] frames terr with
-                       | OParsed fields fname ctype rem later =>
-                           let nf := normalize_fields fields in
-                           (Some (post_check H (cf_auth cfg) nf), Some (nf, file_stream boundary rem later terr))
-                       | _ => (Some (Reject (b "MalformedPOSTRequest")), None)
-                       end
-                   | _ => (Some (Reject (b "InvalidRequest")), None)
-                   end end
-                 else (v4_check H (cf_auth cfg) epoch_of r4 dl now_ns, None)
-             end in
-  match fst sig with
-  | Some (Reject code) => err code
-  | verdict =>
-      let cred := match verdict with Some (Accept ak _ _ _) => Some ak | _ => None end in
-      let region := match verdict with Some (Accept _ rg _ _) => match rg with [] => None | _ => Some rg end | _ => None end in
-      let service := match verdict with Some (Accept _ _ sv _) => Some sv | _ => None end in
-      (* custom route *)
-      let route_ev := match cf_route cfg with RNone => [] | _ => [ERouteMatch] end in
-      match cf_route cfg with
-      | RMatch =>
-          (route_ev ++ [ERouteCheckAccess cred] ++ match cred with Some _ => [ERouteCall cred] | None => [] end,
-           match cred with Some _ => ORoute | None => OError (b "AccessDenied") end)
-      | _ =>
-          (* resolve the operation *)
-          let resolved :=
-            match snd sig with
-            | Some (nf, (file, term)) =>
-                match path with
-                | PRoot => inl (b "NotImplemented")
-                | PBucket _ => match term with FsOk => inr (b "PutObject", false) | _ => inl (b "InternalError") end
-                | PObject _ _ => inl (b "MethodNotAllowed")
-                end
-            | None =>
-                match resolve routes {| v_meth := meth_of (rq_meth r); v_kind := path_kind_of path; v_qs := qs; v_hdrs := map fst (rq_headers r) |} with
-                | Some (op, fb) => inr (op, fb)
-                | None => inl (b "NotImplemented")
-                end
-            end in
-          match resolved with
-          | inl code => (route_ev, OError code)
-          | inr (op, needs_full_body) =>
-              if beq op (b "ListObjects") && qs_has qs (b "events") then (route_ev, OError (b "NotImplemented")) else
-              let '(aev, adeny) := access_events cred op in
-              match adeny with
+      let vh := match cf_host cfg, host with
+                | Hosts bases, Some h => if is_socket_addr_or_ip_addr h then None
+                                         else match resolve_host bases h with Some (_, vb) => vb | None => None end
+                | _, _ => None end in
+      let hs := ordered (rq_headers r) in
+      match (match hs_get_unique hs (b "content-type") with Some ct => Some (mime_boundary ct) | None => None end) with
+      | Some None => inl (b "InvalidRequest")
+      | mime =>
+          match (match hs_get_unique hs (b "x-amz-decoded-content-length") with Some v => Some (atoi_u64 v) | None => None end) with
+          | Some None => inl (b "InvalidRequest")
+          | dl => inr {| p_path := path; p_vh := vh; p_qs := option_map parse_qs (rq_raw_query r); p_hs := hs;
+                         p_mime := match mime with Some (Some m) => Some m | _ => None end;
+                         p_dl := match dl with Some (Some n) => Some n | _ => None end; p_decoded := decoded |}
+          end
+      end
+  end.
+
+(* ---- stage 2: SignatureContext::check; for a POST form also the parsed fields and the file part ---- *)
+Definition post_data := (list (bytes * bytes) * (bytes * fs_terminal))%type.
+Definition signature_stage (r : request) (p : prepared) : option verdict * option post_data :=
+  let is_post_form := beq (rq_meth r) (b "POST") && match p_mime p with Some (true, _) => true | _ => false end in
+  let r4 := {| q_meth := rq_meth r; q_path := p_decoded p; q_qs := p_qs p; q_hs := p_hs p; q_h2_authority := rq_h2_authority r; q_body := full_body r |} in
+  let r2 := {| w_meth := rq_meth r; w_raw_path := rq_raw_path r; w_qs := p_qs p; w_hs := p_hs p; w_vh := p_vh p |} in
+  match v2_check mac (cf_auth cfg) r2 now_ns with
+  | Some v => (Some v, None)
+  | None =>
+      if is_post_form then
+        match cf_auth cfg with None => (Some (Reject (b "NotImplemented")), None) | Some _ =>
+        match p_mime p with
+        | Some (_, Some boundary) =>
+            let frames := match rq_body r with BBytes d => [d] | BStream fr _ => fr end in
+            let terr := match rq_body r with BStream _ t => t | _ => false end in
+            match transform true boundary [] frames terr with
+            | OParsed fields fname ctype rem later =>
+                let nf := normalize_fields fields in
+                (Some (post_check H (cf_auth cfg) nf), Some (nf, file_stream boundary rem later terr))
+            | _ => (Some (Reject (b "MalformedPOSTRequest")), None)
+            end
+        | _ => (Some (Reject (b "InvalidRequest")), None)
+        end end
+      else (v4_check H (cf_auth cfg) epoch_of r4 (p_dl p) now_ns, None)
+  end.
+
+Definition cred_of (v : option verdict) : option bytes := match v with Some (Accept ak _ _ _) => Some ak | _ => None end.
+Definition region_of (v : option verdict) : option bytes :=
+  match v with Some (Accept _ rg _ _) => match rg with [] => None | _ => Some rg end | _ => None end.
+Definition service_of (v : option verdict) : option bytes := match v with Some (Accept _ _ sv _) => Some sv | _ => None end.
+
+(* ---- stage 3: custom route, operation, access control, typed hook, backend ---- *)
+Definition op_part (r : request) (p : prepared) (cred region service : option bytes) (pd : option post_data) (route_ev : list event)
+  : list event * outcome :=
+  let resolved :=
+    match pd with
+    | Some (nf, (file, term)) =>
+        match p_path p with
+        | PRoot => inl (b "NotImplemented")
+        | PBucket _ => match term with FsOk => inr (b "PutObject", false) | _ => inl (b "InternalError") end
+        | PObject _ _ => inl (b "MethodNotAllowed")
+        end
+    | None =>
+        match resolve routes {| v_meth := meth_of (rq_meth r); v_kind := path_kind_of (p_path p); v_qs := p_qs p; v_hdrs := map fst (rq_headers r) |} with
+        | Some (op, fb) => inr (op, fb)
+        | None => inl (b "NotImplemented")
+        end
+    end in
+  match resolved with
+  | inl code => (route_ev, OError code)
+  | inr (op, needs_full_body) =>
+      if beq op (b "ListObjects") && qs_has (p_qs p) (b "events") then (route_ev, OError (b "NotImplemented")) else
+      let '(aev, adeny) := access_events cred op in
+      match adeny with
+      | Some code => (route_ev ++ aev, OError code)
+      | None =>
+          let body_err := if needs_full_body then
+                            match full_body r with
+                            | (Some _, true) => None
+                            | (Some _, false) => Some (match hs_get_all (rq_headers r) (b "content-length") with [] => b "MissingContentLength" | _ => b "IncompleteBody" end)
+                            | (None, _) => Some (b "InternalError") end
+                          else None in
+          match body_err with
+          | Some code => (route_ev ++ aev, OError code)
+          | None =>
+              match deser_error op r with
               | Some code => (route_ev ++ aev, OError code)
               | None =>
-                  let body_err := if needs_full_body then
-                                    match full_body r with
-                                    | (Some _, true) => None
-                                    | (Some _, false) => Some (match hs_get_all (rq_headers r) (b "content-length") with [] => b "MissingContentLength" | _ => b "IncompleteBody" end)
-                                    | (None, _) => Some (b "InternalError") end
-                                  else None in
-                  match body_err with
-                  | Some code => (route_ev ++ aev, OError code)
-                  | None =>
-                      match deser_error op r with
-                      | Some code => (route_ev ++ aev, OError code)
-                      | None =>
-                          let '(tev, tdeny) := typed_events cred op in
-                          match tdeny with
-                          | Some code => (route_ev ++ aev ++ tev, OError code)
-                          | None => (route_ev ++ aev ++ tev ++ [EBackend (snake op) cred region service], OBackend op)
-                          end
-                      end
+                  let '(tev, tdeny) := typed_events cred op in
+                  match tdeny with
+                  | Some code => ((route_ev ++ aev) ++ tev, OError code)
+                  | None => (((route_ev ++ aev) ++ tev) ++ [EBackend (snake op) cred region service], OBackend op)
                   end
               end
           end
       end
-  end end end end.
+  end.
+
+Definition dispatch (r : request) (p : prepared) (cred region service : option bytes) (pd : option post_data) : list event * outcome :=
+  match cf_route cfg with
+  | RMatch =>
+      ([ERouteMatch; ERouteCheckAccess cred] ++ match cred with Some _ => [ERouteCall cred] | None => [] end,
+       match cred with Some _ => ORoute | None => OError (b "AccessDenied") end)
+  | RNoMatch => op_part r p cred region service pd [ERouteMatch]
+  | RNone => op_part r p cred region service pd []
+  end.
+
+Definition call (r : request) : list event * outcome :=
+  match pre r with
+  | inl code => err code
+  | inr p =>
+      match signature_stage r p with
+      | (Some (Reject code), _) => err code
+      | (v, pd) => dispatch r p (cred_of v) (region_of v) (service_of v) pd
+      end
+  end.
 End Call.
 
 (* ---------- printing ---------- *)
